@@ -147,7 +147,7 @@ type dialCapture struct {
 	err    error
 	echoOK bool
 	fp     string
-	noPing bool // the first flight carried no PING frame
+	noPing bool     // the first flight carried no PING frame
 	tpIDs  []uint64 // spec.TransportParameterIDs() right after the dial
 }
 
